@@ -27,6 +27,7 @@ func init() {
 			"every referenced switch in {absent,true,false,\"str\"} in the parent's defaults and in user values (16 pairs; 6 pairs on the larger trees in the quick tier) x backgrounds of the other dependencies; " +
 			"V = value trees: for each leaf of {k, global.g, global.t.x, global.t.u.x} every subset of the tree's value positions (user sections and every chart's values.yaml sections at every level, incl. decoy sections under the real name of an aliased chart), " +
 			"all sets of <=2 (thorough <=3) (leaf,position) atoms over 7 leaves, all pairs of positions x all non-empty subsets of 4 leaves, each with no/each dependency switched off; " +
+			"R = one chart used 2 (thorough 3) times under aliases at the same level, itself having 2..3 conditional dependencies (one of them optionally aliased): every assignment of {on, off in user values, off in the parent's values.yaml} to every (use, grandchild) x every use on / switched off; " +
 			"N = non-interference differential per dependency (inner: values destined for it, outer: everything else); H = client-only dry-run install per combination of per-dependency off-switch kinds. " +
 			"distinct = canonical JSON of the whole case (tree, Chart.yaml switches, every values.yaml, user values); every case has >=1 dependency and is non-trivial in that its expected render differs by construction from case to case (values name their source position)",
 		Run:    run,
@@ -42,7 +43,8 @@ func init() {
 		RequiredFloors: []string{"reason:cond-true", "reason:cond-false", "reason:tags-false", "reason:tags-true", "reason:tags-true-beats-false", "reason:default",
 			"condition-beats-tags", "nonbool-condition-skipped", "second-condition-path-decides", "alias-rendered", "same-chart-twice-one-off", "nested-under-disabled-parent",
 			"global-ancestor-wins", "global-flows-two-levels", "decoy-section-not-seen", "disabled-keeps-parent-data", "live-schema-rejects", "disabled-schema-skipped",
-			"install-hooks-filtered", "install-crds-filtered", "differential-ran"},
+			"install-hooks-filtered", "install-crds-filtered", "differential-ran",
+			"repeated-chart-grandchild-off-under-first-use-only", "repeated-chart-nonlast-grandchild-off-under-both-uses"},
 	})
 }
 
@@ -267,7 +269,7 @@ func run(c *core.Ctx) {
 			if t.noQuickE && !th {
 				continue
 			}
-			enumE(t, t.full || (th && !t.noQuickE), func(s eSpec) {
+			enumE(t, t.full || (th && !t.noQuickE && !t.thoroughOnly), func(s eSpec) {
 				nE++
 				if !c.NextMine() {
 					return
@@ -276,7 +278,7 @@ func run(c *core.Ctx) {
 			})
 		}
 		c.Bound("E_truth_table_rows", fmt.Sprint(nE))
-		c.Bound("E_pairs_per_switch", map[bool]string{true: "16 on every tree except the twice-aliased nested one (6)", false: "16 on P>A and P>a2=A, 6 elsewhere"}[th])
+		c.Bound("E_pairs_per_switch", map[bool]string{true: "16 on the six basic trees (with >=2 other dependencies: at most one of them off/tagged), 6 on the twice-aliased nested tree and the two depth-2/3 alias trees", false: "16 on P>A and P>a2=A, 6 elsewhere"}[th])
 	}
 
 	// V: value trees
@@ -323,7 +325,11 @@ func run(c *core.Ctx) {
 					universe = append(universe, atom{p, l})
 				}
 			}
-			forSubsets(len(universe), atomsMax, func(idx []int) {
+			am := atomsMax
+			if len(ps) > 12 && am > 2 {
+				am = 2 // 15 positions x 7 leaves: pairs only
+			}
+			forSubsets(len(universe), am, func(idx []int) {
 				if len(idx) < 2 {
 					return // covered by (a)/(c)
 				}
@@ -367,6 +373,42 @@ func run(c *core.Ctx) {
 			nN += e.differential(t)
 		}
 		c.Bound("N_runs", fmt.Sprint(nN))
+	}
+
+	// R: the same chart several times at one level, with conditional grandchildren
+	if only("R") {
+		nR := 0
+		specs := []repSpec{{2, 2, false}, {2, 3, false}, {2, 2, true}}
+		if th {
+			specs = append(specs, repSpec{3, 2, false}, repSpec{3, 3, false}, repSpec{2, 3, true}, repSpec{3, 2, true})
+		}
+		for _, r := range specs {
+			n := 0
+			enumR(r, r.NAl*r.NGc <= 6, func(aliasOff int, gc []int) {
+				nR++
+				n++
+				if !c.NextMine() {
+					return
+				}
+				cs := buildR(r, aliasOff, gc)
+				_, m := e.one("R", cs)
+				// vacuity: the uses of the chart really differ, and an earlier use prunes a non-last grandchild
+				for i, al := range m.root.kids {
+					for j, g := range al.kids {
+						for _, al2 := range m.root.kids[i+1:] {
+							if m.live[al] && m.live[al2] && !m.live[g] && m.live[al2.kids[j]] {
+								c.Floor("repeated-chart-grandchild-off-under-first-use-only")
+							}
+							if m.live[al] && m.live[al2] && !m.live[g] && !m.live[al2.kids[j]] && j < len(al.kids)-1 {
+								c.Floor("repeated-chart-nonlast-grandchild-off-under-both-uses")
+							}
+						}
+					}
+				}
+			})
+			c.Bound("R_cases_"+r.id(), fmt.Sprint(n))
+		}
+		c.Bound("R_cases", fmt.Sprint(nR))
 	}
 
 	// H: install leg and live-schema guard
